@@ -913,6 +913,7 @@ SCRIPTED = [
                 ("cstop",), ("cstart", "none"), ("cstop",), ("call", 0)]),
     ("direct", [("new",), ("cstart", "tcp"), ("cstart", "none"), ("cstop",), ("new",), ("cstart", "none"), ("cstop",)]),
     ("direct", [("new",), ("cstart", "udp"), ("new",), ("cstart", "none"), ("make", 1, "obj", True, True, False), ("cstop",)]),
+    ("direct", [("new",), ("remove", 0), ("cstart", "tcp"), ("new",), ("cstart", "none"), ("cstop",)]),
     ("direct", [("new",), ("cstart", "none"), ("make", 1, "obj", False, True, False), ("make", 1, "obj", True, True, False),
                 ("remove", 1), ("make", 1, "inst", True, False, True), ("remove", 1), ("remove", 1), ("make", 1, "task", True, True, True),
                 ("get", 1), ("cstop",), ("call", 2)]),
